@@ -101,6 +101,8 @@ def run_history(modes, ephs, balance, events):
     for ev in events:
         if ev[0] == 'pub':
             pubs[ev[1]].publish(ev[2], ev[3] if len(ev) > 3 else pubs[ev[1]].topics(ev[2]))
+        elif ev[0] == 'close':          # the publisher goes away: its CLOSE message is queued behind whatever it has published
+            pubs[ev[1]].queue.append([b'//', json.dumps({'sid': f'P{ev[1]}', 'mid': -3}).encode()])
         elif ev[0] == 'deliver':
             for _ in range(ev[2]):
                 if pubs[ev[1]].queue:
@@ -160,6 +162,17 @@ def scripted_held(S):
         yield ev
 
 
+def scripted_close(S):
+    """one branch closes mid-stream; an older frame of a slower branch arrives afterwards: it must not be handed out after the newer one"""
+    if S < 2:
+        return
+    for fast in range(S):
+        slow = (fast + 1) % S
+        ev = [('pub', fast, 0), ('deliver', fast, 9), ('recv',), ('pub', slow, 1), ('pub', fast, 2), ('deliver', fast, 9), ('recv',),
+              ('close', fast), ('deliver', fast, 9), ('recv',), ('deliver', slow, 9), ('recv',), ('recv',)]
+        yield ev
+
+
 def random_history(rnd, S):
     ev, nxt = [], [0] * S
     for _ in range(rnd.randint(4, 14)):
@@ -185,7 +198,7 @@ def random_history(rnd, S):
 
 
 def search(modes, ephs, balance, n_random=3000, seed=0):
-    for ev in list(scripted(modes, ephs, balance)) + (list(scripted_held(len(modes))) if not balance and not any(ephs) else []):
+    for ev in list(scripted(modes, ephs, balance)) + (list(scripted_held(len(modes))) if not balance and not any(ephs) else []) + (list(scripted_close(len(modes))) if not any(ephs) else []):
         bad, log = run_history(modes, ephs, balance, ev)
         if bad:
             return {'confirmed': True, 'history': [list(e) for e in ev], 'observed': bad, 'log': log}
